@@ -97,6 +97,12 @@ func init() {
 			for n := 0; n <= maxN+1; n++ {
 				out = append(out, cs("H_C08_BuyAndHold", n))
 			}
+			// the generic Outcome over an integer value type
+			for n := 1; n <= 4; n++ {
+				c := cs("H_C08_OutcomeInt", n)
+				c.MaxPaths = 60000
+				out = append(out, c)
+			}
 			for n := 0; n <= normN; n++ {
 				c := cs("H_C08_Normalize", n)
 				c.MaxPaths = 60000
